@@ -35,7 +35,7 @@ from .loader import Module, Program, _set_parents, import_aliases
 import os
 
 MAX_STMTS = 90
-MAX_SITES = 8           # helpers called from more places than this are API-like; inlining them only makes noise
+MAX_SITES = 24          # helpers called from more places than this are API-like; inlining them only makes noise
 ROUNDS = 3
 _BASE = os.path.join(os.path.dirname(os.path.abspath(__file__)), "baseline_functions.txt")
 
@@ -114,8 +114,25 @@ def _seq(stmts, conv):
                 return out, rt
             # a return nested deeper in a branch that also falls through: the rest would have to be duplicated
             raise NotInlinable("return in a partially terminating branch")
+        if isinstance(st, (ast.For, ast.While)) and _contains_return(st):
+            # `for ..: if c: return v` + rest  ->  `for ..: if c: T = v; break` + `else: rest`
+            if st.orelse or any(isinstance(x, ast.Break) for x in ast.walk(st)) or any(isinstance(x, (ast.For, ast.While, ast.Try, ast.With)) and _contains_return(x) for b in st.body for x in ast.walk(b)):
+                raise NotInlinable("return inside a loop that has its own break / else / inner loop")
+
+            def conv_break(ret):
+                return conv(ret) + [ast.copy_location(ast.Break(), ret)]
+
+            b, _bt = _seq(st.body, conv_break)
+            r, rt = _seq(stmts[i + 1:], conv)
+            if not rt:
+                r = r + conv(ast.copy_location(ast.Return(value=None), st))
+            new = copy.copy(st)
+            new.body = b or [ast.Pass()]
+            new.orelse = r
+            out.append(new)
+            return out, True
         if not isinstance(st, (ast.FunctionDef, ast.AsyncFunctionDef, ast.ClassDef)) and _contains_return(st):
-            raise NotInlinable("return inside a loop / try / with")
+            raise NotInlinable("return inside a try / with")
         out.append(st)
     return out, False
 
@@ -262,10 +279,6 @@ class _Callee:
                 return "introspection"
         if _count_stmts(f.body) > MAX_STMTS:
             return "too large"
-        try:
-            _seq(self.body(), lambda r: [r])
-        except NotInlinable as e:
-            return str(e)
         return None
 
     def body(self):
@@ -353,6 +366,22 @@ class Inliner:
         changed_fns = [(rel, q, n) for rel, q, n in self._functions() if self.base.get(q) != func_digest(n)]
         if not changed_fns:
             return None
+        consts = {rel: module_consts(tree) for rel, tree in self.trees.items()}
+        expr_helpers = {}
+        for rel, q, n in changed_fns:
+            if q not in self.base and "." not in q.split(":")[1]:
+                expr_helpers.setdefault(rel, {})[n.name] = n
+
+        def canon(tag):
+            alive = {id(n) for _rel, _q, n in self._functions()}
+            for rel, q, n in changed_fns:
+                if id(n) in alive:
+                    before = ast.dump(n)
+                    canonicalise(n, consts[rel], expr_helpers.get(rel))
+                    if ast.dump(n) != before:
+                        self.log.append(f"{rel}:{n.lineno} canonicalised {q.split(':')[1]} ({tag})")
+
+        canon("before inlining")
         for _round in range(ROUNDS):
             changed = False
             for rel, tree in self.trees.items():
@@ -360,14 +389,8 @@ class Inliner:
                     changed = True
             if not changed:
                 break
+        canon("after inlining")
         self._drop_dead_helpers()
-        alive = {id(n) for _rel, _q, n in self._functions()}
-        for rel, q, n in changed_fns:
-            if id(n) in alive:
-                before = ast.dump(n)
-                canonicalise(n)
-                if ast.dump(n) != before:
-                    self.log.append(f"{rel}:{n.lineno} canonicalised {q.split(':')[1]} (literal loops unrolled / getattr folded)")
         if not self.log:
             return None
         return self._program()
@@ -388,6 +411,7 @@ class Inliner:
             view.modules[name] = nm
         for m in view.modules.values():
             view._index(m)
+        view._literal_tuples()
         view.inlined = list(self.log)
         return view
 
@@ -460,7 +484,24 @@ class Inliner:
                 for h in st.handlers:
                     h.body = self._inline_block(h.body, caller, owner_cls, resolve, rel, in_loop)
             site = self._site(st)
+            if site is not None and resolve(site[1], owner_cls, caller) is None:
+                site = None
             if site is None:
+                # a helper call embedded in the statement's expression, evaluated before anything with an effect:
+                # hoist it into a temporary in front of the statement
+                h = self._hoist(st, lambda c: (lambda k: k is not None and k.reason is None and k.node is not caller and not (in_loop and k.defines_closures()))(resolve(c, owner_cls, caller)))
+                if h is not None:
+                    asg, st2 = h
+                    callee = resolve(asg.value, owner_cls, caller)
+                    try:
+                        new = self._expand(asg, "assign", asg.value, asg.targets[0], callee, caller)
+                    except NotInlinable:
+                        out.append(st)
+                        continue
+                    self.log.append(f"{rel}:{st.lineno} {caller.name} <- {callee.node.name} (hoisted)")
+                    out.extend(new)
+                    out.append(st2)
+                    continue
                 out.append(st)
                 continue
             kind, call, extra = site
@@ -479,6 +520,67 @@ class Inliner:
             self.log.append(f"{rel}:{st.lineno} {caller.name} <- {callee.node.name}")
             out.extend(new)
         return out
+
+    def _hoist(self, st, inlinable):
+        """(tmp = call, statement with the call replaced by tmp) if ``st`` is a simple statement whose expression
+        contains a call accepted by ``inlinable`` that is the first thing with a possible effect to be evaluated."""
+        if isinstance(st, (ast.Return, ast.Expr)) and st.value is not None:
+            root = st.value
+        elif isinstance(st, ast.Assign) and len(st.targets) == 1 and isinstance(st.targets[0], ast.Name):
+            root = st.value
+        else:
+            return None
+
+        def pure(n):
+            if isinstance(n, (ast.Name, ast.Constant)):
+                return True
+            if isinstance(n, ast.Attribute):
+                return pure(n.value)
+            return False
+
+        def first_effect(n):
+            """The first node, in evaluation order, that is not a pure load; None if the whole tree is pure."""
+            if pure(n):
+                return None
+            if isinstance(n, ast.Call):
+                r = first_effect(n.func)
+                if r is not None:
+                    return r
+                if inlinable(n) and all(not isinstance(a, ast.Starred) for a in n.args):
+                    return n
+                for a in list(n.args) + [k.value for k in n.keywords]:
+                    r = first_effect(a)
+                    if r is not None:
+                        return r
+                return n
+            if isinstance(n, ast.BinOp):
+                return first_effect(n.left) or first_effect(n.right) or n
+            if isinstance(n, ast.UnaryOp):
+                return first_effect(n.operand) or n
+            if isinstance(n, (ast.Tuple, ast.List)):
+                for e in n.elts:
+                    r = first_effect(e)
+                    if r is not None:
+                        return r
+                return None
+            return n
+
+        target = first_effect(root)
+        if not (isinstance(target, ast.Call) and target is not root and inlinable(target)):
+            return None
+        self.counter += 1
+        tmp = f"__h{self.counter}"
+        asg = ast.copy_location(ast.Assign(targets=[ast.Name(id=tmp, ctx=ast.Store())], value=target), st)
+
+        class Repl(ast.NodeTransformer):
+            def visit_Call(self, node):
+                if node is target:
+                    return ast.copy_location(ast.Name(id=tmp, ctx=ast.Load()), node)
+                self.generic_visit(node)
+                return node
+
+        st2 = Repl().visit(st)
+        return asg, st2
 
     @staticmethod
     def _site(st):
@@ -513,7 +615,7 @@ class Inliner:
         for a in env.values():
             arg_names |= {n.id for n in ast.walk(a) if isinstance(n, ast.Name)}
         self.counter += 1
-        tag = f"__{fnode.name.strip('_')}"
+        tag = f"__{fnode.name.strip('_')}{self.counter}"
         rename = {}
         # an import that the caller (or the module) already makes under the same name binds the same object
         known_imports = _import_bindings(caller) | _import_bindings(self._cur_tree, top_only=True)
@@ -566,11 +668,17 @@ class Inliner:
                 new = ast.Return(value=v)
             return [ast.copy_location(new, ret)]
 
-        new_body, terminated = _seq(body, conv)
-        if not terminated:
-            new_body.extend(conv(ast.copy_location(ast.Return(value=None), st)))
-            if kind == "discard":
-                new_body.pop()
+        if kind == "return":
+            # returns stay returns, wherever they sit
+            new_body, terminated = list(body), _terminates(body)
+            if not terminated:
+                new_body.append(ast.copy_location(ast.Return(value=ast.Constant(value=None)), st))
+        else:
+            new_body, terminated = _seq(body, conv)
+            if not terminated:
+                new_body.extend(conv(ast.copy_location(ast.Return(value=None), st)))
+                if kind == "discard":
+                    new_body.pop()
         new_body = _fold(pre + new_body)
         caller._inl_names = getattr(caller, '_inl_names', set()) | {n.id for b in new_body for n in ast.walk(b) if isinstance(n, ast.Name)}
         if kind == "test":
@@ -637,33 +745,80 @@ class _GetattrFold(ast.NodeTransformer):
         return node
 
 
-def _literal_items(it):
-    """Elements of a literal tuple / list whose elements are literals or tuples of literals; None otherwise."""
-    if not isinstance(it, (ast.Tuple, ast.List)) or not (1 <= len(it.elts) <= 8):
+def _literal_items(it, consts=None):
+    """Elements of a literal tuple / list (or of a module-level name bound once to one) whose elements are literals,
+    names, or tuples of literals / names; None otherwise."""
+    if isinstance(it, ast.Name) and consts is not None and it.id in consts:
+        it = consts[it.id]
+    if not isinstance(it, (ast.Tuple, ast.List)) or not (1 <= len(it.elts) <= 32):
         return None
+
+    def atom(x):
+        return isinstance(x, ast.Constant) or isinstance(x, ast.Name) or (isinstance(x, ast.Attribute) and isinstance(x.value, ast.Name))
+
     for e in it.elts:
         if isinstance(e, ast.Constant):
             continue
-        if isinstance(e, (ast.Tuple, ast.List)) and all(isinstance(x, ast.Constant) for x in e.elts):
+        if isinstance(e, (ast.Tuple, ast.List)) and all(atom(x) for x in e.elts):
             continue
         return None
     return it.elts
 
 
-def _unroll(stmts, fn):
+def module_consts(tree) -> dict:
+    """Module-level names bound exactly once to a tuple / list display."""
+    out, seen = {}, {}
+    for st in tree.body:
+        tgt, val = None, None
+        if isinstance(st, ast.Assign) and len(st.targets) == 1 and isinstance(st.targets[0], ast.Name):
+            tgt, val = st.targets[0].id, st.value
+        elif isinstance(st, ast.AnnAssign) and isinstance(st.target, ast.Name) and st.value is not None:
+            tgt, val = st.target.id, st.value
+        if tgt is not None:
+            seen[tgt] = seen.get(tgt, 0) + 1
+            if isinstance(val, (ast.Tuple, ast.List)):
+                out[tgt] = val
+    return {k: v for k, v in out.items() if seen.get(k) == 1}
+
+
+def _strip_continue(stmts):
+    """Loop body without `continue`: `if c: ...; continue` + rest  ->  `if c: ... else: rest`.  None if a continue
+    sits anywhere else."""
+    out = []
+    for i, st in enumerate(stmts):
+        if isinstance(st, ast.Continue):
+            return out          # the rest of the body is dead
+        if isinstance(st, ast.If) and st.body and isinstance(st.body[-1], ast.Continue) and not any(isinstance(x, ast.Continue) for b in st.body[:-1] + st.orelse for x in ast.walk(b)):
+            rest = _strip_continue(stmts[i + 1:])
+            if rest is None:
+                return None
+            new = ast.copy_location(ast.If(test=st.test, body=st.body[:-1] or [ast.copy_location(ast.Pass(), st)], orelse=(st.orelse + rest)), st)
+            out.append(new)
+            return out
+        if any(isinstance(x, ast.Continue) for x in ast.walk(st)) and not isinstance(st, (ast.For, ast.While)):
+            return None
+        out.append(st)
+    return out
+
+
+def _unroll(stmts, fn, consts=None):
     out = []
     for st in stmts:
         for f in ("body", "orelse", "finalbody"):
             if isinstance(getattr(st, f, None), list) and not isinstance(st, (ast.FunctionDef, ast.AsyncFunctionDef, ast.ClassDef)):
-                setattr(st, f, _unroll(getattr(st, f), fn))
+                setattr(st, f, _unroll(getattr(st, f), fn, consts))
         for h in getattr(st, "handlers", []) or []:
-            h.body = _unroll(h.body, fn)
-        items = _literal_items(st.iter) if isinstance(st, ast.For) and not st.orelse else None
+            h.body = _unroll(h.body, fn, consts)
+        items = _literal_items(st.iter, consts) if isinstance(st, ast.For) and not st.orelse else None
         if items is None:
             out.append(st)
             continue
         tg = st.target
         names = [tg.id] if isinstance(tg, ast.Name) else [e.id for e in tg.elts] if isinstance(tg, ast.Tuple) and all(isinstance(e, ast.Name) for e in tg.elts) else None
+        if any(isinstance(n, ast.Continue) for b in st.body for n in ast.walk(b)):
+            stripped = _strip_continue(st.body)
+            if stripped is not None:
+                st.body = stripped or [ast.copy_location(ast.Pass(), st)]
         body_nodes = [n for b in st.body for n in ast.walk(b)]
         if names is None or any(isinstance(n, (ast.Break, ast.Continue, ast.Lambda, ast.FunctionDef)) for n in body_nodes) \
                 or any(isinstance(n, ast.Name) and n.id in names and isinstance(n.ctx, ast.Store) for n in body_nodes):
@@ -690,12 +845,244 @@ def _unroll(stmts, fn):
     return out
 
 
-def canonicalise(fn) -> None:
-    """Statement-level normal form of one (changed) function: literal for-loops unrolled, getattr(x, "lit") -> x.lit,
-    literal tests folded, self-assignments dropped.  Each step preserves behaviour."""
-    fn.body = _unroll(fn.body, fn)
+class _ExprInline(ast.NodeTransformer):
+    """f(a, b) -> body expression of f, for module helpers whose whole body is ``return <expression>``."""
+
+    def __init__(self, helpers):
+        self.helpers = helpers
+        self.hits = 0
+
+    def visit_Call(self, node):
+        self.generic_visit(node)
+        if not (isinstance(node.func, ast.Name) and node.func.id in self.helpers) or node.keywords or any(isinstance(a, ast.Starred) for a in node.args):
+            return node
+        h = self.helpers[node.func.id]
+        params = [a.arg for a in h.args.args]
+        if len(params) != len(node.args) or h.args.vararg or h.args.kwarg or h.args.kwonlyargs or h.args.defaults:
+            return node
+        body = [b for b in h.body if not (isinstance(b, ast.Expr) and isinstance(b.value, ast.Constant))]
+        if len(body) != 1 or not isinstance(body[0], ast.Return) or body[0].value is None:
+            return node
+        expr = body[0].value
+        uses = {p: sum(1 for n in ast.walk(expr) if isinstance(n, ast.Name) and n.id == p) for p in params}
+        if any(isinstance(n, (ast.Lambda, ast.ListComp, ast.GeneratorExp, ast.DictComp, ast.SetComp, ast.NamedExpr, ast.Yield, ast.Await)) for n in ast.walk(expr)):
+            return node
+        for p, a in zip(params, node.args):
+            if not (_simple_arg(a) or uses[p] <= 1):
+                return node
+        self.hits += 1
+        new = _Subst(dict(zip(params, node.args)), {}).visit(copy.deepcopy(expr))
+        for n in ast.walk(new):
+            if hasattr(n, "lineno"):
+                n.lineno = node.lineno
+                n.end_lineno = node.lineno
+        return ast.copy_location(new, node)
+
+
+def _terminates(stmts) -> bool:
+    if not stmts:
+        return False
+    last = stmts[-1]
+    if isinstance(last, (ast.Return, ast.Raise, ast.Continue, ast.Break)):
+        return True
+    if isinstance(last, ast.If):
+        return bool(last.orelse) and _terminates(last.body) and _terminates(last.orelse)
+    return False
+
+
+def _assigned_in_all_branches(node) -> set:
+    """Names assigned (as the last statement) by every fall-through branch of an if/elif/else ladder."""
+    def branch_sets(n):
+        outs = []
+        for blk in (n.body, n.orelse):
+            if len(blk) == 1 and isinstance(blk[0], ast.If) and blk is n.orelse:
+                outs.extend(branch_sets(blk[0]))
+            elif _terminates(blk):
+                continue
+            elif not blk:
+                outs.append(set())
+            else:
+                last = blk[-1]
+                if isinstance(last, ast.If):
+                    outs.extend(branch_sets(last))
+                elif isinstance(last, ast.Assign) and len(last.targets) == 1 and isinstance(last.targets[0], ast.Name):
+                    outs.append({last.targets[0].id})
+                else:
+                    outs.append(set())
+        return outs
+
+    sets = branch_sets(node)
+    if not sets:
+        return set()
+    out = set(sets[0])
+    for x in sets[1:]:
+        out &= x
+    return out
+
+
+def _nullness(e, known):
+    """'none' / 'notnone' / None(unknown) of an expression value."""
+    if isinstance(e, ast.Constant):
+        return "none" if e.value is None else "notnone"
+    if isinstance(e, ast.Name):
+        return known.get(e.id)
+    if isinstance(e, ast.Call) and isinstance(e.func, ast.Name) and e.func.id in ("int", "float", "len", "str", "bool", "list", "tuple", "dict", "set", "abs", "max", "min", "sum", "sorted"):
+        return "notnone"
+    if isinstance(e, (ast.BinOp, ast.Compare, ast.BoolOp, ast.List, ast.Tuple, ast.Dict, ast.Set, ast.JoinedStr, ast.Lambda, ast.ListComp, ast.DictComp, ast.SetComp)):
+        return "notnone" if not isinstance(e, ast.BoolOp) else None
+    return None
+
+
+def _simplify_test(t, known):
+    """(value | None, simplified test) under the known None-ness of locals."""
+    if isinstance(t, ast.Compare) and len(t.ops) == 1 and isinstance(t.ops[0], (ast.Is, ast.IsNot)) and isinstance(t.comparators[0], ast.Constant) and t.comparators[0].value is None:
+        k = _nullness(t.left, known)
+        if k is not None:
+            v = (k == "none") if isinstance(t.ops[0], ast.Is) else (k != "none")
+            return v, t
+        return None, t
+    if isinstance(t, ast.UnaryOp) and isinstance(t.op, ast.Not):
+        v, inner = _simplify_test(t.operand, known)
+        if v is not None:
+            return (not v), t
+        return None, ast.copy_location(ast.UnaryOp(op=ast.Not(), operand=inner), t)
+    if isinstance(t, ast.BoolOp):
+        is_and = isinstance(t.op, ast.And)
+        keep = []
+        for x in t.values:
+            v, sx = _simplify_test(x, known)
+            if v is None:
+                keep.append(sx)
+            elif v != is_and:
+                # a decided operand that short-circuits: only valid to fold when nothing undecided precedes it with
+                # side effects; tests here are pure comparisons
+                return v, t
+        if not keep:
+            return is_and, t
+        if len(keep) == 1:
+            return None, keep[0]
+        return None, ast.copy_location(ast.BoolOp(op=t.op, values=keep), t)
+    return None, t
+
+
+def _fold_known(stmts, known=None):
+    """Forward propagation of `T = None` / `T = int(..)` facts into the `T is None` tests that follow, folding decided
+    ifs and dropping statements after a return / continue / break / raise."""
+    known = dict(known or {})
+    out = []
+    for st in stmts:
+        if isinstance(st, ast.If):
+            v, test = _simplify_test(st.test, known)
+            if v is not None:
+                sub = _fold_known(st.body if v else st.orelse, known)
+                out.extend(sub)
+                if _terminates(sub):
+                    return out
+                for x in sub:
+                    for n in ast.walk(x):
+                        if isinstance(n, ast.Name) and isinstance(n.ctx, ast.Store):
+                            known.pop(n.id, None)
+                # re-learn simple facts from the folded branch
+                for x in sub:
+                    if isinstance(x, ast.Assign) and len(x.targets) == 1 and isinstance(x.targets[0], ast.Name):
+                        k = _nullness(x.value, known)
+                        if k:
+                            known[x.targets[0].id] = k
+                continue
+            st.test = test
+            st.body = _fold_known(st.body, known) or [ast.copy_location(ast.Pass(), st)]
+            st.orelse = _fold_known(st.orelse, known)
+            for n in ast.walk(st):
+                if isinstance(n, ast.Name) and isinstance(n.ctx, ast.Store):
+                    known.pop(n.id, None)
+            out.append(st)
+            if _terminates([st]):
+                return out
+            continue
+        if isinstance(st, (ast.For, ast.While, ast.Try, ast.With)):
+            for n in ast.walk(st):
+                if isinstance(n, ast.Name) and isinstance(n.ctx, ast.Store):
+                    known.pop(n.id, None)
+            for f in ("body", "orelse", "finalbody"):
+                blk = getattr(st, f, None)
+                if isinstance(blk, list) and blk:
+                    setattr(st, f, _fold_known(blk, known if not isinstance(st, (ast.For, ast.While)) else {}) or [ast.copy_location(ast.Pass(), st)])
+            for h in getattr(st, "handlers", []) or []:
+                h.body = _fold_known(h.body, {}) or [ast.copy_location(ast.Pass(), st)]
+            out.append(st)
+            continue
+        out.append(st)
+        if isinstance(st, ast.Assign) and len(st.targets) == 1 and isinstance(st.targets[0], ast.Name):
+            k = _nullness(st.value, known)
+            if k:
+                known[st.targets[0].id] = k
+            else:
+                known.pop(st.targets[0].id, None)
+        elif isinstance(st, (ast.Assign, ast.AugAssign, ast.AnnAssign, ast.Delete, ast.Import, ast.ImportFrom, ast.FunctionDef)):
+            for n in ast.walk(st):
+                if isinstance(n, ast.Name) and isinstance(n.ctx, (ast.Store, ast.Del)):
+                    known.pop(n.id, None)
+        if isinstance(st, (ast.Return, ast.Raise, ast.Continue, ast.Break)):
+            return out
+    return out
+
+
+def _sink_tails(stmts, depth=0):
+    """``if A: t = e1 elif B: t = e2 else: raise ...`` followed by a short tail that ends the block (``return f(t)``):
+    the tail is copied into every branch that falls through, so each branch reads like a self-contained arm."""
+    for st in stmts:
+        for f in ("body", "orelse", "finalbody"):
+            blk = getattr(st, f, None)
+            if isinstance(blk, list) and blk and isinstance(blk[0], ast.stmt) and not isinstance(st, (ast.FunctionDef, ast.AsyncFunctionDef, ast.ClassDef)):
+                setattr(st, f, _sink_tails(blk, depth + 1))
+        for h in getattr(st, "handlers", []) or []:
+            h.body = _sink_tails(h.body, depth + 1)
+    for i, st in enumerate(stmts):
+        tail = stmts[i + 1:]
+        simple_tail = 1 <= len(tail) <= 3 and not any(isinstance(x, (ast.FunctionDef, ast.Lambda, ast.If, ast.For, ast.While, ast.Try)) for t in tail for x in ast.walk(t))
+        # or: the tail starts by testing a local that every branch of the ladder has just assigned (`T = ..` in the
+        # branches, `if T is None: ...` right after): sinking it lets the test be folded branch by branch
+        tested_tail = False
+        if isinstance(st, ast.If) and 1 <= len(tail) <= 8 and isinstance(tail[0], ast.If) and not any(isinstance(x, (ast.FunctionDef, ast.Lambda, ast.For, ast.While, ast.Try)) for t in tail for x in ast.walk(t)):
+            tested = {x.id for x in ast.walk(tail[0].test) if isinstance(x, ast.Name)}
+            tested_tail = bool(tested & _assigned_in_all_branches(st))
+        if isinstance(st, ast.If) and (simple_tail or tested_tail) and _terminates(tail):
+            # only ladders whose branches assign (a value for the tail) or terminate
+            def push(node):
+                if not _terminates(node.body):
+                    node.body = node.body + copy.deepcopy(tail)
+                if len(node.orelse) == 1 and isinstance(node.orelse[0], ast.If):
+                    push(node.orelse[0])
+                elif not _terminates(node.orelse):
+                    node.orelse = node.orelse + copy.deepcopy(tail)
+
+            def count(node):
+                n = 1
+                if len(node.orelse) == 1 and isinstance(node.orelse[0], ast.If):
+                    n += count(node.orelse[0])
+                return n
+
+            if count(st) >= 2 or st.orelse:
+                push(st)
+                return stmts[: i + 1]
+    return stmts
+
+
+def canonicalise(fn, consts=None, expr_helpers=None) -> None:
+    """Statement-level normal form of one (changed) function: literal for-loops unrolled (also over module-level
+    literal tables), getattr(x, "lit") -> x.lit, calls of one-expression helpers replaced by the expression, literal
+    tests folded, self-assignments dropped.  Each step preserves behaviour."""
+    fn.body = _unroll(fn.body, fn, consts)
+    if expr_helpers:
+        _ExprInline(expr_helpers).visit(fn)
     _GetattrFold().visit(fn)
     fn.body = _fold(fn.body) or [ast.Pass()]
+    for _ in range(4):
+        before = ast.dump(fn)
+        fn.body = _sink_tails(fn.body)
+        fn.body = _fold_known(fn.body) or [ast.Pass()]
+        if ast.dump(fn) == before:
+            break
 
     class Drop(ast.NodeTransformer):
         def visit_Assign(self, node):
